@@ -34,7 +34,7 @@ def list_case(n_ops, first, twins=False):
             for s in range(n_ops):
                 n = len(model)
                 opts = [("assign", (0, 1)), ("assign", (1, 0, 1)), ("assign", ()), ("self-assign",), ("iadd", (2,)), ("iadd", (0, 0)), ("append", 2), ("append", 0),
-                        ("extend", (1, 2)), ("extend", ()), ("extend", (0, 2)), ("assign", (0, 2)), ("iadd", (2, 0))] + [("insert", p, 2) for p in sorted({0, n, -1, -(n + 1), n + 1})] + [("setitem", p, 2) for p in sorted({0, n - 1}) if 0 <= p < n]
+                        ("extend", (1, 2)), ("extend", ()), ("extend", (0, 2)), ("assign", (0, 2)), ("iadd", (2, 0))] + [("insert", p, 2) for p in sorted({0, n, -1, -(n + 1), n + 1})] + [("setitem", p, 2) for p in sorted({0, n - 1}) if 0 <= p < n] + [("setslice", 0, 1, (2,), "iter"), ("setslice", 0, 0, (1, 2), "list"), ("setslice", 1, 5, (0,), "iter"), ("setslice", 0, 0, (0, 2), "list")]
                 if s < len(first):
                     op = first[s]
                     if op not in opts:
@@ -63,6 +63,10 @@ def list_case(n_ops, first, twins=False):
                 elif k == "setitem":
                     hum.member_of[op[1]] = pool[op[2]]
                     model[op[1]] = pool[op[2]]
+                elif k == "setslice":  # slice assignment, from a list or from a one-shot iterator
+                    vals = [pool[i] for i in op[3]]
+                    hum.member_of[op[1]:op[2]] = iter(vals) if op[4] == "iter" else list(vals)
+                    model[op[1]:op[2]] = vals
         except Exception as e:
             v["no-exception"] = False
             ctx.observe("raised %s: %s" % (type(e).__name__, str(e)[:100]), [list(map(str, t)) for t in trace])
@@ -181,7 +185,7 @@ def set_case(n_ops, first):
     return h
 
 
-LIST_FIRST = [("assign", (0, 1)), ("assign", (1, 0, 1)), ("assign", ()), ("self-assign",), ("iadd", (2,)), ("iadd", (0, 0)), ("append", 2), ("append", 0), ("extend", (1, 2)), ("extend", ()), ("insert", 0, 2), ("insert", -1, 2)]
+LIST_FIRST = [("setslice", 0, 1, (2,), "iter"), ("setslice", 0, 0, (1, 2), "list"), ("assign", (0, 1)), ("assign", (1, 0, 1)), ("assign", ()), ("self-assign",), ("iadd", (2,)), ("iadd", (0, 0)), ("append", 2), ("append", 0), ("extend", (1, 2)), ("extend", ()), ("insert", 0, 2), ("insert", -1, 2)]
 SET_FIRST = [("assign", (0, 1)), ("assign", (2,)), ("assign", ()), ("self-assign",), ("ior", (2,)), ("ior", (0,)), ("add", 2), ("add", 0), ("update", (1, 2)), ("update", ())]
 
 
@@ -193,7 +197,7 @@ def cases(tier, seed):
         cs.append(Case(nm + "|ops=%d" % n, list_case(n, [f]), key=nm, reset=W.world_reset, validate=0, timeout=900, max_paths=400000, cex_grace=10**9))
     cs.append(Case("list field|first=setitem|ops=%d" % n, list_case(n, []), key="list field|any", reset=W.world_reset, validate=0, timeout=900, max_paths=400000, cex_grace=10**9))
     # elements that are equal but distinct objects: each of them is an element of the field of its own
-    for f in [("extend", (0, 2)), ("assign", (0, 2)), ("iadd", (2, 0)), ("append", 2), ("insert", 0, 2)]:
+    for f in [("extend", (0, 2)), ("assign", (0, 2)), ("iadd", (2, 0)), ("append", 2), ("insert", 0, 2), ("setslice", 0, 0, (0, 2), "list")]:
         nm = "list field with value-equal twins|first=%s" % ":".join(map(str, f))
         cs.append(Case(nm + "|ops=%d" % n, list_case(n, [f], twins=True), key=nm, reset=W.world_reset, validate=0, timeout=900, max_paths=400000, cex_grace=10**9))
     cs.append(Case("transitive list field written in every way", transitive_case(), key="transitive", reset=W.world_reset, validate=0, timeout=300))
@@ -207,7 +211,7 @@ def describe(tier):
     n = 2 if tier == "quick" else 3
     return dict(
         rule="initial contents (ordered list with repetitions / set over a pool of 3 elements, a bounded symbolic choice) followed by %d write operations chosen symbolically from "
-        "{assign a new collection, x.f = x.f, += / |=, append, extend, insert (front / end / negative index), item assignment, add, update} with operands from the pool, on a "
+        "{assign a new collection, x.f = x.f, += / |=, append, extend, insert (front / end / negative index), item assignment, slice assignment (from a list / a one-shot iterator), add, update} with operands from the pool, on a "
         "list-valued (Human.member_of; also with a pool in which two distinct elements compare equal and hash alike) and a set-valued (Org.members) managed field, and a transitive list field (the written element brings consequences that go into the same field); the field must equal the same operations applied to a plain list / set (order and "
         "multiplicity for lists) and every element of the field must be related in the symbol graph with its inverse inferred. non-trivial = non-empty final contents" % n,
         bounds=dict(operations=n, pool=3, initial_lengths="<= 3"),
